@@ -376,7 +376,7 @@ func init() {
 	core.Register(&core.Prop{
 		ID:    "C03",
 		Title: "The three lists behave as one mathematical sequence",
-		Cases: func(tier string) int { return tierN(tier, 6000, 400000) },
+		Cases: func(tier string) int { return tierN(tier, 40000, 800000) },
 		Run:   runC03,
 		Rule: "case = f(seed, index): cases 0..207 are the deterministic sweep (size 0..12 x {Insert,Remove,Set,Swap} x variadic count 0..3, every index -1..size+1); " +
 			"the others are random histories of Add/Append/Prepend/Insert/Remove/Set/Swap/Sort/Clear/Contains with hostile indices and variadic counts {0,1,2,3,17} over small int or string alphabets, " +
